@@ -206,7 +206,7 @@ impl<T: ProgProperty> Property for PP<T> {
     }
     fn decode_fuzz(&self, bytes: &[u8]) -> Option<ProgCase> {
         let mut u = arbitrary::Unstructured::new(bytes);
-        let p = crate::fuzzdec::prog(&mut u).ok()?;
+        let p = if self.0.fuzz_target() == Some("prog_jit") { crate::fuzzdec::prog_jit(&mut u).ok()? } else { crate::fuzzdec::prog(&mut u).ok()? };
         self.case_from_text(&p.program, &p.input, p.bits, [0; 5])
     }
     fn case_from_text(&self, program: &str, input: &[u8], bits: u32, sel: [u32; 5]) -> Option<ProgCase> {
